@@ -31,7 +31,8 @@ COMPONENTS = {
 BUDGET = {'quick': 30000, 'thorough': 800000}
 PROBES = ['pipelining', 'no-pipelining', 'lmtp', 'lmtp-rejected-rcpt',
           'multi-line-reply', 'error-reply-mid-pipeline', 'unsolicited-reply',
-          'replies-in-one-burst', 'second-transaction', 'empty-data']
+          'replies-in-one-burst', 'second-transaction', 'empty-data',
+          'bystander-client']
 STATES_MEASURE = 'distinct (lmtp, pipelining, sequence of (method, reply class))'
 STEP_CAP = 200000
 
@@ -86,7 +87,8 @@ def generate(seed, tier='quick'):
             'steps': steps,
             'unsolicited': rng.random() < 0.25,
             'segmenter': rng.choice(['whole', 'line', 'byte', 'few', 'cuts']),
-            'burst': rng.random() < 0.4, 'lat': rng.choice([0, 1])}
+            'burst': rng.random() < 0.4, 'lat': rng.choice([0, 1]),
+            'bystander': rng.random() < 0.25}
 
 
 def wire(rep, extra=None):
@@ -113,6 +115,73 @@ def expected_message(rep, strip_ext=False):
     text, which carries a unique token per scripted reply"""
     code, lines = rep
     return strip_esc('\r\n'.join(lines))
+
+
+def _bystander(world, cls, lmtp):
+    """another client object with its own socket and scripted server, used
+    at the same time: client objects share nothing"""
+    a, b = net.socketpair(world, 'c10by', a_opts={'latency': net.LAT_SMALL},
+                          b_opts={'latency': net.LAT_SMALL,
+                                  'segmenter': 'line'})
+    script = [(b'', b'220 by banner\r\n'),
+              (b'HLO', b'250-by hello\r\n250 PIPELINING\r\n'),
+              (b'MAIL', b'250 2.1.0 by mail\r\n'),
+              (b'RCPT', b'250 2.1.5 by rcpt one\r\n'),
+              (b'RCPT', b'550 5.1.1 by rcpt two\r\n'),
+              (b'DATA', b'354 by go ahead\r\n'),
+              (b'.', b'250 2.6.0 by accepted\r\n'),
+              (b'QUIT', b'221 2.0.0 by bye\r\n')]
+    out = {}
+
+    def server():
+        buf = b''
+        b.sendall(script[0][1])
+        for want, reply in script[1:]:
+            while True:
+                while b'\n' not in buf:
+                    d = b.recv(4096)
+                    if not d:
+                        return
+                    buf += d
+                l, buf = buf.split(b'\n', 1)
+                l = l.rstrip(b'\r')
+                if want == b'.':
+                    if l == b'.':
+                        break
+                    continue
+                if want in l.upper():
+                    break
+            b.sendall(reply)
+
+    def client():
+        try:
+            c = cls(a, ('by', 0))
+            got = [c.get_banner()]
+            got.append(c.lhlo('by.example') if lmtp else c.ehlo('by.example'))
+            got.append(c.mailfrom('by@s.example'))
+            got.append(c.rcptto('one@by.example'))
+            got.append(c.rcptto('two@by.example'))
+            got.append(c.data())
+            r = c.send_data(b'Subject: by\r\n\r\nby body\r\n')
+            got.append(r[0][1] if lmtp else r)
+            got.append(c.quit())
+            c._flush_pipeline()
+            codes = [(x.code, (x.message or '').split('by ')[-1][:12])
+                     for x in got]
+            want = [('220', 'banner'), ('250', 'hello'), ('250', 'mail'),
+                    ('250', 'rcpt one'), ('550', 'rcpt two'),
+                    ('354', 'go ahead'), ('250', 'accepted'), ('221', 'bye')]
+            if [x[0] for x in codes] != [x[0] for x in want] or any(
+                    w[1] not in (g.message or '') for g, w in
+                    zip(got[2:], want[2:])):
+                out['msg'] = 'replies %r, its server sent %r' % (
+                    [(g.code, g.message) for g in got], want)
+            out['done'] = True
+        except Exception as e:
+            out['msg'] = 'raised %s: %s' % (type(e).__name__, e)
+    gevent.spawn(server)
+    out['g'] = gevent.spawn(client)
+    return out
 
 
 def execute(scn, debug=False):
@@ -262,6 +331,8 @@ def execute(scn, debug=False):
                 import traceback
                 out['exc'] = '%s: %s' % (type(e).__name__, e)
                 out['tb'] = traceback.format_exc()
+        by = _bystander(world, LmtpClient if lmtp else Client, lmtp) \
+            if scn.get('bystander') else None
         cg = gevent.spawn(client)
         ok = world.wait(cg, 300.0)
         # let the scripted server finish its script (and its unsolicited
@@ -277,6 +348,13 @@ def execute(scn, debug=False):
             det.setdefault('lmtp', lmtp)
             det.setdefault('pipelining', scn['pipelining'])
             violations.append({'clause': clause, 'detail': det, 'msg': msg})
+        if by is not None:
+            world.probe('bystander-client')
+            world.wait(by['g'], 300.0)
+            if by.get('msg') or not by.get('done'):
+                bad('C10/cross-client', 'a second client object talking to its '
+                    'own server at the same time: %s' % (
+                        by.get('msg') or 'did not finish'))
         if not ok:
             bad('C10/hang', 'client method did not return: %s' %
                 world.blocked_report())
